@@ -491,6 +491,29 @@ pub fn parse_line(line: &str) -> LineInfo {
     LineInfo { tokens: result, is_complete: is_line_complete }
 }
 
+/// Whether an untagged word has a `>` outside its quoted parts. The
+/// tokenizer keeps a quote that starts in the middle of a word, and the text
+/// up to its closing quote, in the word (`name='a > b'`): a `>` in there is
+/// data.
+fn has_redirection_char(word: &str) -> bool {
+    let chars: Vec<char> = word.chars().collect();
+    let mut i = 0;
+    while i < chars.len() {
+        let c = chars[i];
+        if c == '\'' || c == '"' || c == '`' {
+            if let Some(n) = chars[i + 1..].iter().position(|x| *x == c) {
+                i += n + 2;
+                continue;
+            }
+        }
+        if c == '>' {
+            return true;
+        }
+        i += 1;
+    }
+    false
+}
+
 pub fn tokens_to_redirections(tokens: &Tokens) -> Result<(Tokens, Vec<Redirection>), String> {
     let mut tokens_new = Vec::new();
     let mut redirects = Vec::new();
@@ -532,7 +555,7 @@ pub fn tokens_to_redirections(tokens: &Tokens) -> Result<(Tokens, Vec<Redirectio
 
         let ptn1 = r"^([^>]*)(>>?)([^>]+)$";
         let ptn2 = r"^([^>]*)(>>?)$";
-        if !libs::re::re_contains(word, r">") {
+        if !has_redirection_char(word) {
             tokens_new.push(token.clone());
         } else if libs::re::re_contains(word, ptn1) {
             let re;
